@@ -433,7 +433,10 @@ impl TryFrom<&str> for ByteRange {
 
         Ok(Self {
             start,
-            end: start.unwrap_or(0) + length,
+            end: start
+                .unwrap_or(0)
+                .checked_add(length)
+                .ok_or_else(|| Error::custom("the end of the byte range overflows"))?,
         })
     }
 }
